@@ -110,6 +110,8 @@ type WorkerResult struct {
 	WallS      float64           `json:"wall_s"`
 	Decisions  int               `json:"decisions"`
 	Rule       string            `json:"rule"`
+	Recycle    bool              `json:"recycle,omitempty"`
+	NextRun    int               `json:"next_run,omitempty"`
 }
 
 type Known struct {
@@ -131,6 +133,52 @@ type crashInfo struct {
 	worker int
 	exit   int
 	stderr string
+}
+
+// mergeSegment adds the result of a succeeding worker process (same worker slot) to the first one's.
+func mergeSegment(a, r *WorkerResult) {
+	a.Runs += r.Runs
+	a.SimSeconds += r.SimSeconds
+	a.Rechecked += r.Rechecked
+	a.Diverged += r.Diverged
+	a.Decisions += r.Decisions
+	a.WallS += r.WallS
+	a.Nontrivial = append(a.Nontrivial, r.Nontrivial...)
+	if a.Stats == nil {
+		a.Stats = map[string]int{}
+	}
+	for k, v := range r.Stats {
+		a.Stats[k] += v
+	}
+	seen := map[string]bool{}
+	for _, s := range a.States {
+		seen[s] = true
+	}
+	for _, s := range r.States {
+		if !seen[s] {
+			a.States = append(a.States, s)
+		}
+	}
+	if len(a.Samples) < 2 {
+		a.Samples = append(a.Samples, r.Samples...)
+	}
+	if a.Known == nil {
+		a.Known = map[string]int{}
+	}
+	if a.KnownSeeds == nil {
+		a.KnownSeeds = map[string]uint64{}
+	}
+	for k, v := range r.Known {
+		a.Known[k] += v
+	}
+	for k, v := range r.KnownSeeds {
+		if _, ok := a.KnownSeeds[k]; !ok {
+			a.KnownSeeds[k] = v
+		}
+	}
+	a.Violation, a.ReplayPath, a.Harness = r.Violation, r.ReplayPath, r.Harness
+	a.Recycle, a.NextRun = r.Recycle, r.NextRun
+	a.Stats["worker_processes_recycled"]++
 }
 
 func tailStr(s string, n int) string {
@@ -244,13 +292,50 @@ func check(args []string) int {
 		wg.Add(1)
 		go func(w int) {
 			defer wg.Done()
-			out := filepath.Join(scratch, fmt.Sprintf("res-%d.json", w))
-			code, stderr := runWorker(worker, map[string]string{
-				"VERIF_PROP": id, "VERIF_TIER": *tier, "VERIF_SEED": strconv.FormatInt(seed, 10),
-				"VERIF_WORKER": strconv.Itoa(w), "VERIF_BUDGET_MS": strconv.Itoa(*budget * 1000),
-				"VERIF_OUT": out, "VERIF_KNOWN": knownPath, "VERIF_REPLAY_DIR": replayDir,
-			}, nil)
-			b, err := os.ReadFile(out)
+			// A worker process that reports "recycle" (its heap has grown large: engine goroutines that never
+			// end keep finished runs reachable) is succeeded by a fresh process that continues with the next
+			// run index for the rest of the budget; the segments are merged.
+			deadline := time.Now().Add(time.Duration(*budget) * time.Second)
+			var merged *WorkerResult
+			firstRun := 0
+			var out string
+			var code int
+			var stderr string
+			var b []byte
+			var err error
+			for seg := 0; ; seg++ {
+				out = filepath.Join(scratch, fmt.Sprintf("res-%d-%d.json", w, seg))
+				left := time.Until(deadline)
+				if left < time.Second {
+					left = time.Second
+				}
+				code, stderr = runWorker(worker, map[string]string{
+					"VERIF_PROP": id, "VERIF_TIER": *tier, "VERIF_SEED": strconv.FormatInt(seed, 10),
+					"VERIF_WORKER": strconv.Itoa(w), "VERIF_BUDGET_MS": strconv.Itoa(int(left / time.Millisecond)),
+					"VERIF_OUT": out, "VERIF_KNOWN": knownPath, "VERIF_REPLAY_DIR": replayDir,
+					"VERIF_FIRST_RUN": strconv.Itoa(firstRun),
+				}, nil)
+				b, err = os.ReadFile(out)
+				if err != nil {
+					break
+				}
+				var r WorkerResult
+				if jerr := json.Unmarshal(b, &r); jerr != nil {
+					break
+				}
+				if merged == nil {
+					merged = &r
+				} else {
+					mergeSegment(merged, &r)
+				}
+				if !r.Recycle || r.Violation != nil || r.Harness != "" || time.Until(deadline) < 2*time.Second {
+					break
+				}
+				firstRun = r.NextRun
+			}
+			if merged != nil && err == nil {
+				b, _ = json.Marshal(merged)
+			}
 			if err != nil && code == 4 {
 				if eb, eerr := os.ReadFile(out + ".emergency.json"); eerr == nil {
 					emergencies[w] = eb
